@@ -93,6 +93,44 @@ def main(arg=None, tier="quick"):
             y = b / npshim.sum_(b)
             if not all(q is npshim.NAN for q in y.v):
                 nb += 1
+    S = npshim.np
+    for _ in range(300):
+        n = rnd.randint(1, 6)
+        v = [rnd.choice([0.0, 1.0, -2.5, rnd.random() * 10]) for _ in range(n)]
+        w = [rnd.choice([0.0, 1.0, rnd.random() * 10]) for _ in range(n)]
+        a, b = np.asarray(v), S.asarray(v)
+        a2, b2 = np.asarray(w), S.asarray(w)
+        idx = [rnd.randrange(n) for _ in range(rnd.randint(0, n))]
+        mask = [rnd.random() < 0.5 for _ in range(n)]
+        r = rnd.random() * 12 - 2
+        pairs = [
+            (np.cumsum(a), S.cumsum(b)), (np.argmax(a), S.argmax(b)), (np.argmin(a), S.argmin(b)), (np.max(a), S.max(b)), (np.min(a), S.min(b)),
+            (np.abs(a), S.abs(b)), (np.where(a > 1, a, a2), S.where(b > 1, b, b2)), (np.flatnonzero(a), S.flatnonzero(b)),
+            (a[idx], b[idx]), (a[np.asarray(mask)], b[S.asarray(mask)]), (np.clip(a, 0.5, 3), S.clip(b, 0.5, 3)), (np.maximum(a, a2), S.maximum(b, b2)),
+            (np.minimum(a, 1.5), S.minimum(b, 1.5)), (np.dot(a, a2), S.dot(b, b2)), (np.prod(a), S.prod(b)), (np.mean(a), S.mean(b)),
+            (np.searchsorted(np.cumsum(a2), r), S.searchsorted(S.cumsum(b2), r)), (np.searchsorted(np.cumsum(a2), r, side="right"), S.searchsorted(S.cumsum(b2), r, side="right")),
+            (np.concatenate([a, a2]), S.concatenate([b, b2])), (np.count_nonzero(a), S.count_nonzero(b)), (-a, -b), (a ** 2, b ** 2),
+            (np.array_equal(a, a2), S.array_equal(b, b2)), (np.allclose(a, a2), S.allclose(b, b2)), (np.zeros(n), S.zeros(n)), (np.ones_like(a), S.ones_like(b)),
+            (np.arange(n), S.arange(n)),
+        ]
+        z, zs = np.zeros(n), S.zeros(n)
+        z[idx] = a[idx]
+        zs[idx] = b[idx]
+        pairs.append((z, zs))
+        z, zs = np.zeros(n), S.zeros(n)
+        z[np.asarray(mask)] = 7
+        zs[S.asarray(mask)] = 7
+        pairs.append((z, zs))
+        zi, zis = np.zeros(n, dtype=int), S.zeros(n, dtype=int)
+        zi[:] = a
+        zis[:] = b
+        pairs.append((zi, zis))
+        for x, y in pairs:
+            xs = [float(q) for q in np.atleast_1d(x)]
+            ys = [float(q) for q in (y.v if isinstance(y, npshim.Arr) else [y])]
+            if len(xs) != len(ys) or any(abs(p - q) > 1e-9 for p, q in zip(xs, ys)):
+                nb += 1
+                print("SHIM MISMATCH", x, y)
     print(f"2. numpy shim vs numpy on 500 random vectors: {'ok' if not nb else f'{nb} mismatches'}")
     # 3. Generator.choice contract
     rng = np.random.default_rng(5)
